@@ -165,7 +165,15 @@ def tlc(specdir, module, cfg, *, workers="auto", timeout=600, simulate=None, dep
         cfgp = os.path.join(wd, cfg)
         if consts:
             txt = open(cfgp).read()
-            txt += "\nCONSTANTS\n" + "\n".join("  %s = %s" % (k, v) for k, v in consts.items()) + "\n"
+            # assignments given here replace those of the cfg file
+            keep = []
+            for line in txt.splitlines():
+                m = re.match(r"\s*(\w+)\s*(=|<-)", line)
+                if m and m.group(1) in consts:
+                    continue
+                keep.append(line)
+            txt = "\n".join(keep)
+            txt += "\nCONSTANTS\n" + "\n".join(("  %s <- %s" % (k, v[2:])) if isinstance(v, str) and v.startswith("<-") else ("  %s = %s" % (k, v)) for k, v in consts.items()) + "\n"
             cfgp = os.path.join(wd, "_gen_" + cfg)
             open(cfgp, "w").write(txt)
         cmd = ["java", "-XX:+UseParallelGC", "-Xss64m"]
